@@ -136,4 +136,9 @@ def pretty(obj: Any) -> str:  # pragma: no cover
                     output.append(f'{m.group(1)} ')
                 break
 
+        # Pass through anything that is not a recognized token so that we always advance
+        if m is None:
+            output.append(sel[index])
+            index += 1
+
     return ''.join(output)
